@@ -20,3 +20,4 @@ open RV.C09
 #print axioms datetime_roundtrip_partial
 #print axioms time_readback_wide
 #print axioms time_roundtrip_witness
+#print axioms duration_py_to_lit
